@@ -514,6 +514,12 @@ class Analyzer:
     def delegates(self, fn, short, limp):
         out = []
         for c in own_nodes(fn):
+            if isinstance(c, ast.Call) and isinstance(c.func, ast.Attribute) and isinstance(c.func.value, ast.Name) \
+                    and c.func.value.id in ("_copy", "copy") and c.func.attr in ("copy", "deepcopy"):
+                # copy.copy / copy.deepcopy of the array: every attribute, the fill included, is copied
+                if "stdlib.copy" not in out:
+                    out.append("stdlib.copy")
+                continue
             if isinstance(c, ast.Call) and not guard_of_call(c) and self.ctor_class(c) is None:
                 keys, _ = self.callees(c, short, limp)
                 for k in keys:
